@@ -328,15 +328,26 @@ func c16EventDriven(ctx *Ctx, variant int) {
 	upl := all
 	var steps, outs []hv.V
 	var chain [][]int
+	dropControlAfterFirst := false
 	switch variant {
 	case 0:
 		chain = [][]int{{1, 2, 3}, {1, 3}} // a node joins; later one leaves
+	case 2:
+		// a node joins, the control connection is lost inside the refresh window (its host is bounced), the proxy fails
+		// over; a later topology change must still be followed
+		chain = [][]int{{1, 2, 3}, {1, 2, 3, 4}}
+		dropControlAfterFirst = true
 	default:
 		chain = [][]int{{1, 3, 4}} // a node is replaced and another joins inside one window
 	}
 	for _, t := range chain {
 		e.be.SetTopology(t...)
 		e.be.Event(&message.TopologyChangeEvent{ChangeType: primitive.TopologyChangeTypeNewNode, Address: &primitive.Inet{Addr: []byte{127, 0, 0, 9}, Port: int32(e.be.Port)}})
+		if dropControlAfterFirst && len(steps) == 0 {
+			time.Sleep(300 * time.Millisecond)
+			e.be.DropRegistered()
+			e.waitControl(5 * time.Second)
+		}
 		got := e.settle(inter(t, up), 14*time.Second)
 		steps = append(steps, hv.L(intsV(t), intsV(upl)))
 		outs = append(outs, intsV(got))
@@ -550,6 +561,65 @@ func c16Heartbeat(ctx *Ctx) {
 	}
 }
 
+// ---- (4b) the same for connections that replaced lost ones, and for the pool of a host that joined later ----
+func c16HeartbeatReplaced(ctx *Ctx) {
+	all := []int{1, 2, 3, 4}
+	idle := 400 * time.Millisecond
+	e := newC16Env(fmt.Sprintf("r%d", ctx.Seed%1000), all, []int{1, 2, 3}, func(c *proxy.Config) {
+		c.HeartBeatInterval = 50 * time.Millisecond
+		c.IdleTimeout = idle
+		c.ConnectTimeout = 300 * time.Millisecond
+	})
+	defer e.close()
+	waitConns := func(h int, limit time.Duration) bool {
+		deadline := time.Now().Add(limit)
+		for time.Now().Before(deadline) {
+			if e.be.ReadyConns(h) > 0 {
+				return true
+			}
+			time.Sleep(5 * time.Millisecond)
+		}
+		return false
+	}
+	muteAndWatch := func(h int, how string, hostsNow []int) {
+		before := e.be.ReadyConns(h)
+		e.be.Mute(h, true)
+		t0 := time.Now()
+		closed := false
+		for time.Since(t0) < idle+2*time.Second {
+			if e.be.ReadyConns(h) == 0 {
+				closed = true
+				break
+			}
+			time.Sleep(5 * time.Millisecond)
+		}
+		took := time.Since(t0)
+		served := e.routing(6)
+		e.be.Mute(h, false)
+		healed := sameInts(e.settle(hostsNow, 5*time.Second), hostsNow)
+		ctx.Emit(hv.L(hv.I(5), hv.I(int64(idle/time.Millisecond)), hv.I(int64(before))),
+			hv.L(hv.Bool(closed && took >= idle-100*time.Millisecond), hv.Bool(len(served) > 0), hv.Bool(healed)),
+			fmt.Sprintf("heartbeat: host %d (%s) muted, connections closed after %v, served by %v meanwhile", h, how, took.Round(time.Millisecond), served))
+		ctx.Count("heartbeat:" + how)
+	}
+	// a connection that replaced a lost one
+	e.be.DropConns(2)
+	time.Sleep(100 * time.Millisecond)
+	if waitConns(2, 5*time.Second) {
+		e.settle([]int{1, 2, 3}, 3*time.Second)
+		muteAndWatch(2, "replacement-connection", []int{1, 2, 3})
+	}
+	// the pool of a host that joined after start-up (merge driven by a control-connection reconnect)
+	e.be.SetTopology(1, 2, 3, 4)
+	e.be.DropRegistered()
+	e.waitControl(5 * time.Second)
+	if sameInts(e.settle(all, 8*time.Second), all) {
+		muteAndWatch(4, "host-added-after-start-up", all)
+	} else {
+		ctx.Emit(hv.L(hv.I(5), hv.I(int64(idle/time.Millisecond)), hv.I(0)), hv.L(hv.Bool(false), hv.Bool(false), hv.Bool(false)), "heartbeat: the host added after start-up never received requests")
+	}
+}
+
 func genC16(ctx *Ctx) {
 	var fins []func()
 	var wg sync.WaitGroup
@@ -561,6 +631,8 @@ func genC16(ctx *Ctx) {
 	}
 	par(1, func(c *Ctx) { c16EventDriven(c, 0) })
 	par(2, func(c *Ctx) { c16EventDriven(c, 1) })
+	par(5, func(c *Ctx) { c16EventDriven(c, 2) })
+	par(6, c16HeartbeatReplaced)
 	par(3, c16Readiness)
 	par(4, c16Heartbeat)
 	c16Policy(ctx)
